@@ -788,6 +788,7 @@ def c13(run):
             ("Lifecycle_neg_limits", "negative model: Reset builds a world with the default limits", {"expect_violation": True})]
     if run.tier == "thorough":
         cfgs.insert(1, ("Lifecycle_reset_sim", "L1 ResetClean on simulated 3-round histories + export", {"simulate": 400, "depth": 30, "seed": run.seed, "workers": 8}))
+        cfgs.insert(2, ("Lifecycle_limreset_sim", "L1 ResetClean on simulated 3-round histories of limited authorizers + export", {"simulate": 400, "depth": 30, "seed": run.seed, "workers": 8}))
     life_check(run, cfgs)
 
 
